@@ -193,6 +193,11 @@ FLAGS = [
      r"RequestType::LaunchWorker\(_\) => \{\s*client\.finish_failure\(",
      r"RequestType::LaunchWorker\(_\) => \{\} // not yet implemented",
      "request_type None / LaunchWorker / ReturnListenSockets are answered with a failure (false: never answered, F21)"),
+    # --- H2Wire (C15) ---
+    ("h2FirstSettingsChecksLen", "lib/src/protocol/mux/h2.rs",
+     r"\(H2State::ClientSettings, Position::Server\) => \{\s*let i = kawa\.storage\.data\(\);(?:\s*//[^\n]*)*\s*if i\.len\(\) % parser::SETTINGS_ENTRY_SIZE as usize != 0 \{\s*return self\.goaway\(H2Error::FrameSizeError\);",
+     r"\(H2State::ClientSettings, Position::Server\) => \{\s*let i = kawa\.storage\.data\(\);\s*let settings = match parser::settings_frame\(",
+     "the first SETTINGS of a connection (parsed with settings_frame directly) is refused with FRAME_SIZE_ERROR when its length is not a multiple of 6 (false: accepted, tail dropped, F24)"),
 ]
 
 
